@@ -296,8 +296,9 @@ pub fn stale_content() -> Vec<u8> {
 /// 3 a named pipe as INPUT; 4 `/dev/stdin` as INPUT with a pipe on stdin; 5 stdin in small pieces;
 /// 6 a regular file whose name is `-` in the working directory (INPUT is a file name — the tools
 /// document no other reading of it), with an EMPTY pipe on stdin; 7 stdin is a regular file of
-/// which an earlier reader has already consumed a leading line (the input starts at that offset).
-pub const INPUT_MODES: u64 = 8;
+/// which an earlier reader has already consumed a leading line (the input starts at that offset);
+/// 8 stdin is a TERMINAL on which the input is typed (inputs that cannot be typed go through a pipe).
+pub const INPUT_MODES: u64 = 9;
 
 pub struct InputPlan {
     /// the INPUT argument, if the mode uses one
@@ -311,16 +312,17 @@ pub fn plan_input(mode: u8, dir: &std::path::Path, file_name: &str, content: &[u
     let path = dir.join(hostile_file_name(content.len() / 3 + mode as usize, file_name));
     match mode {
         1 => InputPlan { path_arg: None, stdin: Some(content.to_vec()), feed: Default::default() },
-        3 => InputPlan { path_arg: Some(path.display().to_string()), stdin: None, feed: crate::cli::Feed { stdin_chunk: 0, fifos: vec![(path, content.to_vec(), chunk)], stdin_file: None } },
-        4 => InputPlan { path_arg: Some("/dev/stdin".into()), stdin: Some(content.to_vec()), feed: crate::cli::Feed { stdin_chunk: if content.len() % 2 == 0 { 0 } else { chunk }, fifos: vec![], stdin_file: None } },
-        5 => InputPlan { path_arg: None, stdin: Some(content.to_vec()), feed: crate::cli::Feed { stdin_chunk: chunk, fifos: vec![], stdin_file: None } },
+        3 => InputPlan { path_arg: Some(path.display().to_string()), stdin: None, feed: crate::cli::Feed { stdin_chunk: 0, fifos: vec![(path, content.to_vec(), chunk)], stdin_file: None, stdout_tty: false, gnuplot_stub: false, stdin_tty: false } },
+        4 => InputPlan { path_arg: Some("/dev/stdin".into()), stdin: Some(content.to_vec()), feed: crate::cli::Feed { stdin_chunk: if content.len() % 2 == 0 { 0 } else { chunk }, fifos: vec![], stdin_file: None, stdout_tty: false, gnuplot_stub: false, stdin_tty: false } },
+        5 => InputPlan { path_arg: None, stdin: Some(content.to_vec()), feed: crate::cli::Feed { stdin_chunk: chunk, fifos: vec![], stdin_file: None, stdout_tty: false, gnuplot_stub: false, stdin_tty: false } },
+        8 => InputPlan { path_arg: None, stdin: Some(content.to_vec()), feed: crate::cli::Feed { stdin_tty: true, ..Default::default() } },
         7 => {
             // `{ read -r header; tool; } < file`: what the earlier reader consumed is NOT input
             let consumed: &[u8] = [&b"source,target\n"[..], b"1 2 3 4\n", b"a & b\n", b"\"a header line\"\n"][content.len() % 4];
             let mut whole = consumed.to_vec();
             whole.extend_from_slice(content);
             let _ = std::fs::write(&path, &whole);
-            InputPlan { path_arg: None, stdin: None, feed: crate::cli::Feed { stdin_chunk: 0, fifos: vec![], stdin_file: Some((path, consumed.len() as u64)) } }
+            InputPlan { path_arg: None, stdin: None, feed: crate::cli::Feed { stdin_chunk: 0, fifos: vec![], stdin_file: Some((path, consumed.len() as u64)), stdout_tty: false, gnuplot_stub: false, stdin_tty: false } }
         }
         6 => {
             let _ = std::fs::write(dir.join("-"), content);
